@@ -14,6 +14,11 @@ ERROR awkward_Identities_from_ListOffsetArray(
   int64_t fromwidth) {
   int64_t globalstart = fromoffsets[0];
   int64_t globalstop = fromoffsets[fromlength];
+  // (an array without lists may start anywhere: offsets = [5] over an empty
+  // content is valid, and nothing below 'globalstart' exists to be marked)
+  if (globalstart > tolength) {
+    globalstart = tolength;
+  }
   for (int64_t k = 0;  k < globalstart*(fromwidth + 1);  k++) {
     toptr[k] = -1;
   }
